@@ -43,7 +43,7 @@ func init() {
 	extend("C05", "(R5.1d) what Initialize saves is merged with what was saved before: the value serialised into the original-setting / deployment-strategy annotation depends on the previously saved annotation, so re-initialising a held-back workload cannot overwrite the user's settings with the hold-back values.", extraC05)
 	extend("C07", "(R7.5) a plan change is consumed: every success return of handleRolloutPlanChanged has stored the new rollout hash into the status, otherwise isRolloutPlanChanged stays true and every reconcile re-enters the handler.", extraC07)
 	extend("C08", "(R8.6) in the admission closure no map is built and filled but never attached or read (a hold-back value written into an orphan map never reaches the object).", extraC08)
-	extend("C09", "(R9.2b) in the validating handler every path from decoding the object to an allowed response passes the spec validator, and on Update every path from decoding the old object passes the update validator; (R9.1g) where a site guards a cursor-derived index against len() itself, the guard is exact (strict upper bound on the index actually used).", extraC09)
+	extend("C09", "(R9.2b) in the validating handler every path from decoding the object to an allowed response passes the spec validator, and on Update every path from decoding the old object passes the update validator; (R9.1g) where a site guards a cursor-derived index against len() itself, the guard is exact (strict upper bound on the index actually used); (R9.1h) the same for every index in pkg/ and api/ whose guard compares it with len() of the very slice it indexes.", extraC09)
 	extend("C10", "(R10.5) the transition to the success-finalising reason is reachable from doProgressingInRolling only under the negation of the rollback and supersession predicates; (R10.1c) the finders' rollback detection compares two observed status counters (sibling agreement between the CloneSet and the StatefulSet-like finder).", extraC10)
 	extend("C13", "(R13.1b) a canary match that combines one of the rule's own matches with a step match starts from a complete copy of the rule's match (whole-struct copy, or a literal assigning every field of HTTPRouteMatch), so no condition of the original rule (method, path, headers, query) is dropped.", extraC13)
 	extend("C15", "(R15.3b) what compareAndUpdateObject writes is the script output: spec and labels handed to the Update derive from the script result and not from the live object, annotations only carry the snapshot annotation over.", extraC15)
@@ -309,6 +309,8 @@ func extraC09(c *Ctx) {
 	p := c.Prog
 	c.Rule("R9.2b", "every allowed admission response has passed the spec validator, and on Update the update validator", 6)
 	c.Rule("R9.1g", "a local len() guard of a cursor-derived index is exact", 1)
+	c.Rule("R9.1h", "every index guarded against len() of the slice it indexes is guarded strictly (repository-wide)", 3)
+	checkLenGuards(c)
 	if fn := p.Func("pkg/webhook/rollout/validating.RolloutCreateUpdateHandler.Handle"); fn == nil {
 		c.Unresolved("R9.2b", "RolloutCreateUpdateHandler.Handle")
 	} else {
@@ -401,6 +403,84 @@ func extraC09(c *Ctx) {
 			}
 		}
 	}
+}
+
+// checkLenGuards: R9.1h — wherever an index (or slice bound) is compared with len() of the very
+// slice it indexes, the comparison that guards the access must exclude index == len.
+func checkLenGuards(c *Ctx) {
+	p := c.Prog
+	n := 0
+	for _, fn := range p.RepoFuncs() {
+		name := FuncName(fn)
+		if !(strings.HasPrefix(name, "pkg/") || strings.HasPrefix(name, "api/")) || strings.HasPrefix(name, "pkg/controller/deployment") {
+			continue
+		}
+		for _, b := range fn.Blocks {
+			for _, in := range b.Instrs {
+				var base, index ssa.Value
+				switch x := in.(type) {
+				case *ssa.IndexAddr:
+					base, index = x.X, x.Index
+				case *ssa.Index:
+					base, index = x.X, x.Index
+				default:
+					continue
+				}
+				if _, isConst := index.(*ssa.Const); isConst {
+					continue
+				}
+				if isRangeIndex(index) {
+					continue // compiler-generated range loop: strict by construction
+				}
+				idx := stripConv(TermOf(index)).String()
+				bs := TermOf(base).String()
+				var rel []Fact
+				for _, f := range FactsAtInstr(in) {
+					l, r := stripConv(f.L), stripConv(f.R)
+					isLenOfBase := func(t *Term) bool {
+						return t.Op == "len" && t.Name == "len" && len(t.Args) == 1 && t.Args[0].String() == bs
+					}
+					if (l.String() == idx && isLenOfBase(r)) || (r.String() == idx && isLenOfBase(l)) {
+						rel = append(rel, f)
+					}
+				}
+				if len(rel) == 0 {
+					continue
+				}
+				n++
+				exact := false
+				for _, f := range rel {
+					l := stripConv(f.L).String()
+					if (l == idx && f.Op == "<") || (l != idx && f.Op == ">") {
+						exact = true
+					}
+				}
+				c.Ob("R9.1h", name+"#len-guard", in.Pos(), exact, "index "+idx+" into "+bs+" is guarded against len("+bs+")", ifs(!exact, "the guard is not a strict upper bound ("+strings.Join(FactStrings(rel), "; ")+"): index == len panics")).WithFacts(rel)
+			}
+		}
+	}
+	c.Extra["len_guarded_index_sites"] = n
+}
+
+// isRangeIndex recognises go/ssa's lowering of `for i := range s`: i = phi(-1, i) + 1.
+func isRangeIndex(v ssa.Value) bool {
+	b, ok := v.(*ssa.BinOp)
+	if !ok || b.Op.String() != "+" {
+		return false
+	}
+	if k, ok := b.Y.(*ssa.Const); !ok || constText(k) != "1" {
+		return false
+	}
+	phi, ok := b.X.(*ssa.Phi)
+	if !ok {
+		return false
+	}
+	for _, e := range phi.Edges {
+		if k, ok := e.(*ssa.Const); ok && constText(k) == "-1" {
+			return true
+		}
+	}
+	return false
 }
 
 func stripConv(t *Term) *Term {
